@@ -1,9 +1,13 @@
+use indexmap::{IndexMap, IndexSet};
+
 use crate::dynamic::{Field, InputValue, Interface, InterfaceField, Object, TypeRef};
 
 pub(crate) trait BaseField {
     fn ty(&self) -> &TypeRef;
 
     fn argument(&self, name: &str) -> Option<&InputValue>;
+
+    fn arguments(&self) -> &IndexMap<String, InputValue>;
 }
 
 pub(crate) trait BaseContainer {
@@ -14,6 +18,8 @@ pub(crate) trait BaseContainer {
     fn graphql_type(&self) -> &str;
 
     fn field(&self, name: &str) -> Option<&Self::FieldType>;
+
+    fn implements(&self) -> &IndexSet<String>;
 }
 
 impl BaseField for Field {
@@ -25,6 +31,11 @@ impl BaseField for Field {
     #[inline]
     fn argument(&self, name: &str) -> Option<&InputValue> {
         self.arguments.get(name)
+    }
+
+    #[inline]
+    fn arguments(&self) -> &IndexMap<String, InputValue> {
+        &self.arguments
     }
 }
 
@@ -44,6 +55,11 @@ impl BaseContainer for Object {
     fn field(&self, name: &str) -> Option<&Self::FieldType> {
         self.fields.get(name)
     }
+
+    #[inline]
+    fn implements(&self) -> &IndexSet<String> {
+        &self.implements
+    }
 }
 
 impl BaseField for InterfaceField {
@@ -55,6 +71,11 @@ impl BaseField for InterfaceField {
     #[inline]
     fn argument(&self, name: &str) -> Option<&InputValue> {
         self.arguments.get(name)
+    }
+
+    #[inline]
+    fn arguments(&self) -> &IndexMap<String, InputValue> {
+        &self.arguments
     }
 }
 
@@ -73,5 +94,10 @@ impl BaseContainer for Interface {
     #[inline]
     fn field(&self, name: &str) -> Option<&Self::FieldType> {
         self.fields.get(name)
+    }
+
+    #[inline]
+    fn implements(&self) -> &IndexSet<String> {
+        &self.implements
     }
 }
